@@ -1,4 +1,4 @@
-CONSTANTS Cap = 1 Totals = {1,2} Trails = {0,1} ReadSizes = {1,100} Styles = {"all"}
+CONSTANTS Cap = 1 Totals = {1} Trails = {0,1} ReadSizes = {1,100} Styles = {"all"}
 SPECIFICATION GSpec
 INVARIANT Emit
 CHECK_DEADLOCK FALSE
